@@ -295,12 +295,126 @@ def index_bounds():
     return items
 
 
+# ---------------------------------------------------------------------------------------------------------------------
+# 'is labelled with that quantity's unit' - binding obligations on every report line that prints a unit
+# ---------------------------------------------------------------------------------------------------------------------
+import copy
+import re
+
+_UNIT = re.compile(r"^(.*)\.(CurrentUnits|PreferredUnits)\.value$")
+
+
+def _writer_fn():
+    repo_src = os.path.join(os.environ.get("VERIF_REPO", "/repo"), "src")
+    tree = ast.parse(open(os.path.join(repo_src, "geophires_x", "Outputs.py"), encoding="utf-8").read())
+    return next(n for n in ast.walk(tree) if isinstance(n, ast.FunctionDef) and n.name == "PrintOutputs")
+
+
+def _aliases(fn):
+    """local name -> the expression of its ONLY assignment in the writer (econ = model.economics, e_npv = ..., hpce = ...)"""
+    seen = {}
+    for n in ast.walk(fn):
+        t = None
+        if isinstance(n, ast.Assign) and len(n.targets) == 1:
+            t = n.targets[0]
+        elif isinstance(n, ast.AnnAssign) and n.value is not None:
+            t = n.target
+        if isinstance(t, ast.Name):
+            seen.setdefault(t.id, []).append(n.value)
+    return {k: v[0] for k, v in seen.items() if len(v) == 1 and k != "f"}
+
+
+def _resolved(e, alias, depth=0):
+    class R(ast.NodeTransformer):
+        def visit_Name(self, n):
+            if n.id in alias and depth < 4 and not (isinstance(alias[n.id], ast.Name) and alias[n.id].id == n.id):
+                return ast.parse(_resolved(alias[n.id], alias, depth + 1), mode="eval").body
+            return n
+    return ast.unparse(R().visit(copy.deepcopy(e)))
+
+
+def _pieces(e):
+    """the text pieces of one write: ('lit', text) | ('dyn', expression)"""
+    if isinstance(e, ast.BinOp) and isinstance(e.op, ast.Add):
+        return _pieces(e.left) + _pieces(e.right)
+    if isinstance(e, ast.JoinedStr):
+        return [("lit", v.value) if isinstance(v, ast.Constant) else ("dyn", v.value) for v in e.values]
+    if isinstance(e, ast.Constant) and isinstance(e.value, str):
+        return [("lit", e.value)]
+    if isinstance(e, ast.Call) and isinstance(e.func, ast.Attribute) and e.func.attr == "format" \
+            and isinstance(e.func.value, ast.Constant):
+        return [("lit", e.func.value.value)] + [("dyn", a) for a in e.args]
+    if isinstance(e, ast.Call) and ast.unparse(e.func) == "str" and len(e.args) == 1:
+        return [("dyn", e.args[0])]
+    return [("dyn", e)]
+
+
+def _unit_lines():
+    """every f.write(...) of the writer that prints a parameter's unit: (line, label text, value expressions, units)"""
+    fn = _writer_fn()
+    alias = _aliases(fn)
+    out = []
+    for n in ast.walk(fn):
+        if not (isinstance(n, ast.Call) and isinstance(n.func, ast.Attribute) and n.func.attr == "write"
+                and ast.unparse(n.func.value) == "f" and n.args):
+            continue
+        parts = _pieces(n.args[0])
+        label = " ".join("".join(p[1] for p in parts if p[0] == "lit").split())[:60]
+        vals, units = [], []
+        for kind, e in parts:
+            if kind == "lit":
+                continue
+            t = _resolved(e, alias)
+            m = _UNIT.match(t)
+            if m:
+                units.append((m.group(1), m.group(2)))
+            else:
+                vals.append(t)
+        if units:
+            out.append((n.lineno, label, vals, units))
+    return sorted(out)
+
+
+@ground_check("C09", "report-lines-print-the-unit-of-the-quantity-they-print")
+def unit_binding():
+    """For every line of the case report that prints a unit taken from a parameter object:
+      (follows-conversion) the text is that parameter's CurrentUnits - the attribute the unit-conversion pass
+        (Outputs._convert_units -> ConvertOutputUnits / ConvertUnitsBack) rewrites together with the value; PreferredUnits
+        does not follow a `Units:` directive, so a converted value would carry the old label;
+      (same-quantity) when the line prints values, the unit is taken from a parameter whose value the line prints
+        (`X.CurrentUnits.value` next to an expression over `X.value`) - a unit borrowed from another parameter is only
+        right as long as the two happen to be converted alike.
+    Decided on the real AST of Outputs.PrintOutputs (all writes, local aliases resolved), complete over the writer."""
+    items = []
+    lines = _unit_lines()
+    items.append({"name": "the report writer's unit-carrying lines were found", "ok": len(lines) >= 100,
+                  "detail": f"{len(lines)} writes print a parameter's unit"})
+    seen = {}
+    for ln, label, vals, units in lines:
+        printed = [v for v in vals if ".value" in v]
+        for X, attr in units:
+            short = X.replace("model.", "")
+            what = f"'{label or '(label from the parameter)'}' prints {short}'s unit"
+            k = seen[what] = seen.get(what, 0) + 1
+            tag = what + (f" (occurrence {k})" if k > 1 else "")
+            items.append({"name": f"Outputs.PrintOutputs: {tag}: the unit follows the conversion pass (CurrentUnits)",
+                          "ok": attr == "CurrentUnits", "detail": f"line {ln}: {X}.{attr}.value"})
+            if printed:
+                same = any(X + ".value" in v or X + ").value" in v for v in printed)
+                items.append({"name": f"Outputs.PrintOutputs: {tag}: the unit is taken from a quantity the line prints",
+                              "ok": same, "detail": f"line {ln}: values printed: {[v[:90] for v in printed][:3]}"})
+    return items
+
+
 property_info("C09", level="other",
               explanation="Partial: only the statement's last clause (one row per simulated / construction year, in order) and "
                           "the absence of out-of-range reads in the profile tables, by structural obligations on the real "
-                          "AST of Outputs.PrintOutputs plus index-bound VCs (z3). The figures themselves are not decided.",
+                          "AST of Outputs.PrintOutputs plus index-bound VCs (z3); and the binding half of 'labelled with that "
+                          "quantity's unit': every line that prints a parameter's unit prints the CurrentUnits of a quantity "
+                          "that line prints. The figures themselves are not decided.",
               not_decided=["every printed figure equals the computed quantity rounded to the displayed precision (formatted text)",
-                           "every figure is labelled with that quantity's unit",
+                           "that a unit taken from the right parameter object is also the unit the VALUE is in (the unit "
+                           "conversion pass itself is C06's subject); units typed as literal text in the writer ('%', 'kg/sec')",
                            "which series a column shows (the column <-> quantity correspondence is not specified anywhere "
                            "but in the writer itself)",
                            "the rich / HTML writer (OutputsRich) and the add-on, S-DAC-GT, AGS and SUTRA writers"],
